@@ -22,6 +22,7 @@ CONSTANTS
   PairFirst = {}
   TypedFlush = {TRUE}
   Interleave = FALSE
+  MaxAbandon = 0
   Bug = {}
 INVARIANT EmitTrace
 CHECK_DEADLOCK FALSE
